@@ -7,12 +7,14 @@ from hypothesis import strategies as st
 
 from persim import gromov_hausdorff
 
+from .. import core
 from ..core import Clause
 from ..oracles import mgh
 from ..strategies import finite
 from . import _graph as G
 
 FUZZ = ["bracket"]
+THOROUGH_SCALE = 1     # already minutes per run (exact oracles on every step / large graphs)
 RULE = ("Pairs of connected simple graphs with 1..12 vertices for the exact oracle (random spanning trees biased to paths + extra edges; paths, cycles, stars, cliques, complete bipartite "
         "graphs) in random labelings; np.random.seed(s) with a generated s immediately before the call (the RNG state is an input owned by the "
         "harness); mapping_sample_size_order default or two floats in [-1, 2] given as array / list / tuple.")
@@ -111,8 +113,11 @@ def check_large(case, ctx):
 
 
 _TIER = os.environ.get("PV_TIER", "quick")
-_BIG_EDGE = [126, 127, 128, 129, 130] + ([255, 256, 257] if _TIER == "thorough" else [])
-_BIG_MAX = 260 if _TIER == "thorough" else 140
+_BIG_EDGE = [126, 127, 128, 129, 130]
+_BIG_MAX = 200 if _TIER == "thorough" else 140
+# the mGH estimate costs O(diameter * n^3): a 200-vertex tree legitimately takes tens of seconds, so the watchdog that reports
+# non-termination is set far above that for this property (a time-out is only ever reported for the code under test)
+core.CASE_TIME_LIMIT = 1500.0
 
 
 @st.composite
@@ -176,9 +181,9 @@ def check_big(case, ctx):
 
 def edge_size_cases():
     """deterministic graphs whose diameter sits at the integer-width boundaries (the implementation stores distances in the
-    smallest sufficient signed integer type): diameters 125..129 (and 254..257 in the thorough tier)"""
-    ns = [126, 127, 128, 129, 130] + ([255, 256, 257, 258] if _TIER == "thorough" else [])
-    fams = ["path", "caterpillar"] + (["cycle", "random_tree"] if _TIER == "thorough" else [])
+    smallest sufficient signed integer type, int8 up to 127): diameters 125..129, and counts of vertices at one distance around 127"""
+    ns = [126, 127, 128, 129, 130]
+    fams = ["path", "caterpillar"] + (["random_tree", "tree_plus"] if _TIER == "thorough" else [])
     # diameter-2 graphs with more than 127 vertices at one distance from some vertex (counts, not distances, near the int8 limit)
     for n in (127, 128, 129, 130, 151):
         for pair in ((("star", n), ("hub_clique", n)), (("hub_clique", n), ("star", 20)), (("star", n), ("star", n))):
@@ -187,7 +192,7 @@ def edge_size_cases():
             yield {"g": g, "h": h, "seed": n, "order": None, "order_form": "array", "same": g == h}
     for n in ns:
         for fam in fams:
-            g = {"family": fam, "n": (n if fam != "cycle" else 2 * n - 2), "seed": 1}
+            g = {"family": fam, "n": n, "seed": 1}
             for partner in ({"family": "path", "n": 100, "seed": 2}, dict(g), {"family": "star", "n": 5, "seed": 3}):
                 yield {"g": g, "h": partner, "seed": n, "order": None, "order_form": "array", "same": partner == g}
 
@@ -239,12 +244,12 @@ CLAUSES = [
            rule="13..18 vertices (exact value out of reach): 0 <= lb <= ub, half-integrality, lb <= half the distortion of maps found by an "
                 "independent greedy search in both directions, ub >= trivial bound; non-trivial = max diameter >= 3 and lb > 0"),
     Clause("big_graphs", s_big(), check_big, quick=16, thorough=640,
-           rule="60..140 vertices in the quick tier, 60..260 in the thorough tier (sizes around 127/128 and 255/256 favoured: the implementation picks the smallest integer dtype that holds the "
+           rule="60..140 vertices in the quick tier, 60..200 in the thorough tier (sizes around 127/128 favoured: the implementation picks the smallest integer dtype that holds the "
                 "distances): paths, cycles, stars, caterpillars, random trees (+ chords), expanded from a generated seed; no exception, 0 <= lb <= ub, "
                 "half-integrality, ub >= trivial bound, lb <= half the distortion of a greedy map, relabelled copies get lb == 0; non-trivial = >= 128 vertices"),
     Clause("edge_sizes", cases=edge_size_cases, check=check_big,
-           rule="DETERMINISTIC slice: stars and hub+clique graphs with 127..151 vertices (more than 127 vertices at one distance); paths and caterpillars (thorough: also cycles and random trees) with 126..130 (thorough: also 255..258) "
-                "vertices, i.e. diameters at the int8 / int16 boundaries, against a 100-path, a relabelled copy of themselves and a 5-star; "
+           rule="DETERMINISTIC slice: stars and hub+clique graphs with 127..151 vertices (more than 127 vertices at one distance); paths and caterpillars (thorough: also random trees with and without chords) with 126..130 "
+                "vertices, i.e. diameters at the int8 / int16 boundary, against a 100-path, a relabelled copy of themselves and a 5-star; "
                 "same validity predicates as big_graphs"),
     Clause("small_slice", cases=slice_cases, check=check_slice,
            rule="EXHAUSTIVE: all 44 x 44 ordered pairs of connected labelled graphs on <= 4 vertices x 3 RNG seeds; oracle cross-checked against "
